@@ -17,6 +17,8 @@ def gen_recs(rng, n, chroms):
         e = s + rng.choice([0, 0, 1, 10])
         recs.append({"tumor": rng.choice(["T1", "T1", "T2"]), "normal": rng.choice(["N1", "N1", "N2", ""]),
                      "chr": c, "start": s, "stop": e})
+        if rng.random() < 0.15:
+            recs[-1]["_spell"] = "+%d"      # (scheme-less files only) the position text is what int() reads: a sign is part of it
     return recs
 
 
@@ -36,7 +38,7 @@ def to_lines(recs, typed, rng):
             rec = SC.typed_record(rng, r["tumor"], r["normal"] or None, r["chr"], r["start"], r["stop"])
             out.append(str(rec))
         return out
-    return ["\t".join(["G", r["chr"], "n/a" if r.get("_unkeyable") else str(r["start"]), str(r["stop"]), r["tumor"], r["normal"]]) for r in recs]
+    return ["\t".join(["G", r["chr"], "n/a" if r.get("_unkeyable") else r.get("_spell", "%d") % r["start"], str(r["stop"]), r["tumor"], r["normal"]]) for r in recs]
 
 
 def first_descent(recs, order, contigs):
@@ -92,6 +94,15 @@ def read_via(route, lines, mode, tmp):
         out = {"records": [], "iter_exc": None}
         try:
             it = SortOrderEnforcingIterator(reader, reader.header().sort_order()) if route == "iterator" else reader
+            if route.startswith("split"):
+                # two-stage consumption of ONE iterator: k records taken with next(), the rest by a for loop over the same
+                # iterator (a loop left with break and resumed, itertools.islice then list(...)): the order check spans both
+                it = iter(reader)
+                for _ in range(int(route[5:] or 0)):
+                    try:
+                        out["records"].append(str(next(it)))
+                    except StopIteration:
+                        break
             for rec in it:
                 out["records"].append(str(rec))
         except Exception as e:  # noqa
@@ -242,7 +253,14 @@ def route_cases(ctx, out):
     cases = []
     for _ in range(ctx.scale(220, 2500)):
         lines, mode, recs, order, contigs, typed, shape = gen_file(rng, True)
-        cases.append((make_request(lines, mode), recs, order, contigs, typed, rng.choice(READ_ROUTES), shape))
+        route = rng.choice(READ_ROUTES + ["split", "split"])
+        if route == "split":
+            try:
+                d0 = first_descent(recs, order, contigs or []) if order in ("Coordinate", "BarcodesAndCoordinate") else None
+            except ValueError:      # a record on a chromosome the contig list does not name
+                d0 = None
+            route = "split%d" % (d0 if (d0 is not None and rng.random() < 0.6) else rng.randrange(0, len(recs) + 2))
+        cases.append((make_request(lines, mode), recs, order, contigs, typed, route, shape))
     mo = ctx.driver.run([c[0] for c in cases])
     with tempfile.TemporaryDirectory() as tmp:
         for (r, recs, order, contigs, typed, route, shape), m in zip(cases, mo):
@@ -258,7 +276,7 @@ def route_cases(ctx, out):
                 out.disagreements.append(dict(model_differs(r, m, i), route=route, differs=["records yielded / exception"]))
             if "init_exc" in i:
                 continue
-            out.distribution["route:" + route] += 1
+            out.distribution["route:" + ("split (k records by next(), the rest by a for loop)" if route.startswith("split") else route)] += 1
             out.distribution["shape:" + shape] += 1
             if isinstance(d, tuple):
                 out.distribution["contig-missing"] += 1
